@@ -211,6 +211,9 @@ class Exec(BufMixin):
             return base[idx]
         if not self.is_arr(base):
             raise OutOfReach('subscript of %r' % (base,))
+        if isinstance(idx, V.SymRange):
+            # fancy indexing by a range copies the rows lo..hi-1: same elements as the slice lo:hi
+            idx = slice(idx.lo, idx.hi)
         if not isinstance(idx, tuple):
             idx = (idx,)
         nreal = sum(1 for i in idx if i is not None)
@@ -460,6 +463,10 @@ class Exec(BufMixin):
             return self.ev(mod.globals[name], State(), Frame(mod, '<module>', None, None))
         if name == 'pi':
             return V.PI
+        # pure repo functions under contract may be named in specifications of any module
+        for k, c in self.ctx.contracts.items():
+            if c.pure and k.endswith('::' + name) and '::' in k:
+                return FunVal('repo', name, tuple(k.split('::')))
         if name in BUILTINS or name in SPEC_BUILTINS:
             return FunVal('builtin', name)
         raise OutOfReach('unknown name %s' % name)
